@@ -66,3 +66,19 @@ Print Assumptions C15_reset_state.
 Print Assumptions C15_reset_behaves_like_new.
 Print Assumptions C15_reset_refines.
 Print Assumptions C15_history_with_reset.
+
+(** ** Reset in the code of /repo itself (translations [Gen/GoEntityPool.v], [Gen/GoLocks.v], [Gen/GoBitSet.v]): the entity pool, the
+    lock mask and the target bit set come back to their initial model states. *)
+From Arche Require Import Pure.GoRt Gen.GoEntityPool Gen.GoLocks Gen.GoBitSet Proofs.PoolInv Proofs.PoolTie Proofs.LockTie Proofs.BitSetTie.
+Local Open Scope nat_scope.
+Theorem C15_code_pool_reset : forall g p live issued frees,
+  pool_rel g p -> pool_inv p live issued frees ->
+  exists g', entityPool_Reset g = Ret g' /\ pool_rel g' pool_init.
+Proof. exact PoolTie.Reset_tie. Qed.
+Theorem C15_code_lock_reset : forall g l, lock_rel g l -> lock_rel (lockMask_Reset g) (locks_init 256).
+Proof. exact LockReset_tie. Qed.
+Theorem C15_code_bitset_reset : forall g n, n <= 64 * length (words g) ->
+  exists g', bitSet_Reset g = Ret g' /\ bs_rel g' (replicate n false).
+Proof. exact BitSetTie.Reset_tie. Qed.
+Print Assumptions C15_code_pool_reset.
+Print Assumptions C15_code_bitset_reset.
